@@ -1,7 +1,15 @@
-"""Prototype symbolic executor for rustc-emitted LLVM IR (O0), z3 back end."""
-import sys, time, bisect, re, os
+"""llsymex: KLEE-style symbolic executor for rustc-emitted LLVM IR (-O0), z3 + cvc5 back ends.
+
+Values are python ints (concrete) or z3 terms (symbolic).  Every feasible side of every symbolic
+branch is followed (DFS); `verif_assert` issues a solver query for a falsifying input on the
+current path.  Anything the engine does not implement raises Unsupported -> the instance is
+*inconclusive*, never a pass.
+"""
+import sys, time, bisect, re, os, subprocess, tempfile
 import z3
 from llparse import Module, PTR, VOID
+
+STACK_BASE = 0x7000_0000_0000
 
 sys.setrecursionlimit(10000)
 
@@ -44,10 +52,57 @@ class Unsupported(Exception):
     pass
 
 
+class Inconclusive(Exception):
+    """a global limit was hit or a solver gave up: the run proves nothing"""
+    pass
+
+
 class PathEnd(Exception):
     def __init__(self, kind, msg=''):
         self.kind = kind
         self.msg = msg
+
+
+def cvc5_solve(smt2_text, inputs, timeout_s):
+    """run the cvc5 CLI on an SMT-LIB text; returns ('unsat', None) | ('sat', [(var, int)...]) | None (no answer)"""
+    txt = smt2_text.replace('(set-info :status unknown)', '(set-logic ALL)')
+    if '(set-logic' not in txt:
+        txt = '(set-logic ALL)\n' + txt
+    names = [v.decl().name() for v in inputs]
+    # only ask for symbols that occur in the text (others are unconstrained)
+    present = [(v, n) for v, n in zip(inputs, names) if ('|%s|' % n in txt or re.search(r'\(declare-fun %s ' % re.escape(n), txt))]
+    if present:
+        txt += '\n(get-value (%s))\n' % ' '.join(n for _, n in present)
+    with tempfile.NamedTemporaryFile('w', suffix='.smt2', delete=False) as f:
+        f.write(txt)
+        path = f.name
+    try:
+        r = subprocess.run(['cvc5', '--lang', 'smt2', '--produce-models', '--solve-bv-as-int=sum',
+                            '--tlimit=%d' % int(timeout_s * 1000), path], capture_output=True, text=True,
+                           timeout=timeout_s + 10)
+        out = r.stdout
+    except subprocess.TimeoutExpired:
+        return None
+    finally:
+        os.unlink(path)
+    if '(error' in out or '(error' in r.stderr:
+        return None
+    first = out.strip().split('\n', 1)[0].strip() if out.strip() else ''
+    if first == 'unsat':
+        return ('unsat', None)
+    if first != 'sat':
+        return None
+    vals = dict(re.findall(r'\(\|?([^\s|()]+)\|?\s+(#[xb][0-9a-fA-F]+)\)', out))
+    res = []
+    for v, n in present:
+        x = vals.get(n)
+        if x is None:
+            return None
+        res.append((v, int(x[2:], 16 if x[1] == 'x' else 2)))
+    for v, n in zip(inputs, names):
+        if (v, n) not in present:
+            res.append((v, 0))
+    return ('sat', res)
 
 
 class Obj:
@@ -71,9 +126,9 @@ class Obj:
 
 
 class Frame:
-    __slots__ = ('func', 'block', 'idx', 'locals', 'prev', 'dst', 'allocas')
+    __slots__ = ('func', 'block', 'idx', 'locals', 'prev', 'dst', 'allocas', 'sp', 'nsb')
 
-    def __init__(self, func, dst):
+    def __init__(self, func, dst, sp=STACK_BASE, nsb=0):
         self.func = func
         self.block = func.order[0]
         self.idx = 0
@@ -81,6 +136,8 @@ class Frame:
         self.prev = None
         self.dst = dst
         self.allocas = []
+        self.sp = sp      # stack pointer at entry
+        self.nsb = nsb    # len(st.sbases) at entry
 
     def clone(self):
         f = Frame.__new__(Frame)
@@ -91,6 +148,8 @@ class Frame:
         f.prev = self.prev
         f.dst = self.dst
         f.allocas = list(self.allocas)
+        f.sp = self.sp
+        f.nsb = self.nsb
         return f
 
 
@@ -102,14 +161,17 @@ class State:
         State._next[0] += 1
         self.frames = []
         self.mem = {}
-        self.bases = []
+        self.bases = []       # heap object bases (sorted, append-only)
+        self.sbases = []      # stack object bases (sorted; truncated on return)
         self.brk = 0x10000000
+        self.sbrk = STACK_BASE
         self.pc = []
         self.model = None
-        self.inputs = []      # (name, z3 var)
+        self.inputs = []      # z3 vars (or concrete ints in concrete mode)
         self.nins = 0
         self.asserts = 0
-        self.trace = []
+        self.expect_panic = 0
+        self.notes = []
 
     def fork(self):
         s = State()
@@ -119,13 +181,16 @@ class State:
         s.frames = [f.clone() for f in self.frames]
         s.mem = dict(self.mem)
         s.bases = list(self.bases)
+        s.sbases = list(self.sbases)
         s.brk = self.brk
+        s.sbrk = self.sbrk
         s.pc = list(self.pc)
         s.model = self.model
         s.inputs = list(self.inputs)
-        s.nins = self.nins
+        s.nins = 0
         s.asserts = self.asserts
-        s.trace = list(self.trace)
+        s.expect_panic = self.expect_panic
+        s.notes = list(self.notes)
         return s
 
 
@@ -133,27 +198,46 @@ class Engine:
     def __init__(self, mod, config=None):
         self.mod = mod
         self.tc = mod.tc
-        self.solver = z3.Solver()
-        self.spc = []
-        self.qhist = []
-        self.nqueries = 0
-        self.solver_time = 0.0
+        self.config = config or {}
         self.fn_addr = {}       # key -> addr
         self.addr_fn = {}
         self.next_fn_addr = 0x1000
         self.gaddr = {}         # global key -> base addr (initial image)
-        self.gobjs = {}         # base -> Obj  (initial image, shared)
+        self.gobjs = {}         # base -> Obj  (initial image, shared, never written in place)
         self.gbases = []
         self.gbrk = 0x100000
-        self.funcs_seen = {}
         self.intercepts = []
-        self.violations = []
-        self.paths = []
-        self.sym_counter = 0
-        self.max_paths = 100000
-        self.config = config or {}
-        self.stats = {'forks': 0}
+        self.icache = {}
         self.setup_intercepts()
+        self.reset()
+
+    def reset(self, params=(), limits=None, concrete_inputs=None):
+        """forget everything that belongs to one harness instance"""
+        lim = {'max_paths': 20000, 'max_instr_path': 400_000_000, 'max_instr_total': 4_000_000_000, 'max_depth': 600,
+               'timeout_s': 3600, 'branch_timeout_ms': 10000, 'assert_timeout_ms': 2000, 'fallback_timeout_s': 120,
+               'max_addr_values': 256}
+        if limits:
+            lim.update(limits)
+        self.limits = lim
+        self.params = list(params)
+        self.concrete_inputs = concrete_inputs
+        self.solver = z3.Solver()
+        self.solver.set('timeout', lim['branch_timeout_ms'])
+        self.spc = []
+        self.qhist = []
+        self.nqueries = 0
+        self.solver_time = 0.0
+        self.funcs_seen = {}
+        self.violations = []
+        self.sym_counter = 0
+        self.stats = {'forks': 0, 'assert_queries': 0, 'assert_unsat': 0, 'assert_concrete': 0, 'z3_queries': 0,
+                      'cvc5_queries': 0, 'z3_time': 0.0, 'cvc5_time': 0.0, 'sym_loads': 0, 'sym_stores': 0}
+        self.assert_sites = {}   # id -> [evaluated, proved(unsat or concretely true), violated]
+        self.covers = {}
+        self.path_samples = []   # input vectors (solver models) of completed paths, replayed natively by the driver
+        self.sample_cap = lim.get('sample_paths', 6)
+        self.t_start = time.time()
+        self.total_ins = 0
 
     # ------------------------------------------------------------------ solver
     def sync(self, st):
@@ -172,7 +256,9 @@ class Engine:
             spc.append(c)
 
     def check(self, st, extra=None):
+        """feasibility of pc (+extra) with the incremental solver; falls back to the portfolio on unknown"""
         self.nqueries += 1
+        self.stats['z3_queries'] += 1
         t0 = time.time()
         self.sync(st)
         if extra is not None:
@@ -186,31 +272,76 @@ class Engine:
             m = self.solver.model() if r == z3.sat else None
         dt_ = time.time() - t0
         self.solver_time += dt_
+        self.stats['z3_time'] += dt_
         self.qhist.append(dt_)
-        if dt_ > 0.2: print('SLOW %.2fs pc=%d extra=%s' % (dt_, len(st.pc), str(extra)[:300].replace(chr(10),' ')))
         if r == z3.unknown:
-            raise Unsupported('solver unknown')
+            return self.portfolio(st, extra, skip_z3=True)
         return m
 
     def check_oneshot(self, st, extra):
+        """assertion query: fresh z3 with a short budget, then cvc5 (int-blasting), then z3 int-blasting"""
+        return self.portfolio(st, extra, skip_z3=False)
+
+    def portfolio(self, st, extra, skip_z3):
+        lim = self.limits
+        cs = list(st.pc) + ([extra] if extra is not None else [])
+        if not skip_z3:
+            self.nqueries += 1
+            self.stats['z3_queries'] += 1
+            t0 = time.time()
+            s = z3.Solver()
+            s.set('timeout', lim['assert_timeout_ms'])
+            s.add(*cs)
+            r = s.check()
+            dt_ = time.time() - t0
+            self.solver_time += dt_
+            self.stats['z3_time'] += dt_
+            self.qhist.append(dt_)
+            if r == z3.sat:
+                return s.model()
+            if r == z3.unsat:
+                return None
+        # cvc5, int-blasting that keeps mod 2^k semantics
         self.nqueries += 1
+        self.stats['cvc5_queries'] += 1
         t0 = time.time()
-        s = z3.SolverFor('QF_BV')
-        for c in st.pc:
-            s.add(c)
-        s.add(extra)
-        r = s.check()
-        m = s.model() if r == z3.sat else None
+        s = z3.Solver()
+        s.add(*cs)
+        txt = s.to_smt2()
+        res = cvc5_solve(txt, [v for v in st.inputs if is_sym(v)], lim['fallback_timeout_s'])
         dt_ = time.time() - t0
         self.solver_time += dt_
+        self.stats['cvc5_time'] += dt_
         self.qhist.append(dt_)
-        if dt_ > 0.5:
-            print('SLOW1 %.2fs pc=%d' % (dt_, len(st.pc)))
-            self.ndump = getattr(self, 'ndump', 0) + 1
-            if self.ndump <= 3: open('/tmp/probe/slow%d.smt2' % self.ndump, 'w').write(s.to_smt2())
-        if r == z3.unknown:
-            raise Unsupported('solver unknown')
-        return m
+        if res is not None:
+            status, vals = res
+            if status == 'unsat':
+                return None
+            # turn the cvc5 assignment into a z3 model by re-solving with the inputs pinned (cheap, validates it too)
+            s2 = z3.Solver()
+            s2.set('timeout', 20000)
+            s2.add(*cs)
+            for v, x in vals:
+                s2.add(v == z3.BitVecVal(x, v.size()))
+            r = s2.check()
+            if r == z3.sat:
+                return s2.model()
+            raise Inconclusive('cvc5 model rejected by z3 (%s)' % r)
+        # last resort: z3's own int-blasting
+        t0 = time.time()
+        s = z3.Solver()
+        s.set('smt.bv.solver', 2)
+        s.set('timeout', int(lim['fallback_timeout_s'] * 1000))
+        s.add(*cs)
+        r = s.check()
+        dt_ = time.time() - t0
+        self.solver_time += dt_
+        self.stats['z3_time'] += dt_
+        if r == z3.sat:
+            return s.model()
+        if r == z3.unsat:
+            return None
+        raise Inconclusive('no solver answered within the cap (pc=%d)' % len(st.pc))
 
     def feasible_both(self, st, cond):
         """returns (model_if_true or None, model_if_false or None)"""
@@ -237,24 +368,34 @@ class Engine:
         st.bases.append(base)
         return base
 
+    def alloc_stack(self, st, size, align=16, name=''):
+        align = max(align, 1)
+        base = (st.sbrk + align - 1) // align * align
+        st.sbrk = base + max(size, 1) + 16
+        o = Obj(base, size, name, None, False, st.id)
+        st.mem[base] = o
+        st.sbases.append(base)
+        return base
+
     def find_obj(self, st, addr, write=False):
-        bases = st.bases
-        i = bisect.bisect_right(bases, addr) - 1
         o = None
-        if i >= 0:
-            b = bases[i]
-            o = st.mem.get(b)
-            if o is not None and not (addr < b + max(o.size, 1) or (o.size == 0 and addr == b)):
-                if addr > b + o.size:
-                    o = None
-        if o is None:
-            # global image?
+        if addr >= STACK_BASE:
+            bases = st.sbases
+            i = bisect.bisect_right(bases, addr) - 1
+            if i >= 0:
+                o = st.mem.get(bases[i])
+        elif addr >= 0x10000000:
+            bases = st.bases
+            i = bisect.bisect_right(bases, addr) - 1
+            if i >= 0:
+                o = st.mem.get(bases[i])
+        else:
             j = bisect.bisect_right(self.gbases, addr) - 1
             if j >= 0:
                 b = self.gbases[j]
                 o = st.mem.get(b) or self.gobjs[b]
-                if addr > b + o.size:
-                    o = None
+        if o is not None and addr > o.base + o.size:
+            o = None
         if o is None:
             raise Panic('memory access to unmapped address 0x%x' % addr)
         if o.freed:
@@ -928,9 +1069,18 @@ class Engine:
         n = name.lstrip('@')
         if n.startswith('verif_any_u'):
             w = int(n[len('verif_any_u'):])
-            v = z3.BitVec('in%d_u%d' % (len(st.inputs), w), w)
+            k = len(st.inputs)
+            if self.concrete_inputs is not None:
+                v = (self.concrete_inputs[k] if k < len(self.concrete_inputs) else 0) & mask(w)
+            else:
+                v = z3.BitVec('in%d_u%d' % (k, w), w)
             st.inputs.append(v)
             return v
+        if n == 'verif_param':
+            i = args[0]
+            if is_sym(i):
+                raise Unsupported('symbolic param index')
+            return self.params[i] if i < len(self.params) else 0
         if n == 'verif_assume':
             c = boolv(args[0])
             if is_sym(c):
@@ -948,31 +1098,80 @@ class Engine:
             return None
         if n == 'verif_assert':
             c = boolv(args[0])
+            aid = args[1] if not is_sym(args[1]) else -1
             st.asserts += 1
+            site = self.assert_sites.setdefault(aid, [0, 0, 0])
+            site[0] += 1
             if is_sym(c):
+                c = z3.simplify(c)
+            if is_sym(c) and not z3.is_true(c) and not z3.is_false(c):
+                self.stats['assert_queries'] += 1
                 m = self.check_oneshot(st, z3.Not(c))
                 if m is not None:
-                    self.report_violation(st, m, 'assertion id=%s in %s' % (args[1], fr.func.dem))
+                    site[2] += 1
+                    self.report_violation(st, m, 'assert', aid, 'assertion id=%s in %s' % (aid, fr.func.dem))
                     # continue on the passing side
                     m2 = self.check_oneshot(st, c)
                     if m2 is None:
                         raise PathEnd('assert-fail')
                     st.pc.append(c)
                     st.model = m2
-            elif not c:
-                m = st.model or self.check(st)
-                self.report_violation(st, m, 'assertion id=%s in %s' % (args[1], fr.func.dem))
-                raise PathEnd('assert-fail')
+                else:
+                    site[1] += 1
+                    self.stats['assert_unsat'] += 1
+            else:
+                if is_sym(c):
+                    c = z3.is_true(c)
+                if not c:
+                    site[2] += 1
+                    m = st.model if st.model is not None else self.check(st)
+                    self.report_violation(st, m, 'assert', aid, 'assertion id=%s in %s' % (aid, fr.func.dem))
+                    raise PathEnd('assert-fail')
+                site[1] += 1
+                self.stats['assert_concrete'] += 1
             return None
         if n == 'verif_cover':
+            self.covers[args[0]] = self.covers.get(args[0], 0) + 1
+            return None
+        if n == 'verif_expect_panic':
+            st.expect_panic = args[0]
+            return None
+        if n == 'verif_note':
+            st.notes.append((args[0], args[1] if not is_sym(args[1]) else str(args[1])))
             return None
         raise Unsupported('verif intrinsic ' + n)
 
-    def report_violation(self, st, model, what):
+    def input_values(self, st, model):
         vals = []
         for v in st.inputs:
-            vals.append(model.eval(v, model_completion=True).as_long() if model is not None else 0)
-        self.violations.append((what, vals))
+            if is_sym(v):
+                vals.append(model.eval(v, model_completion=True).as_long() if model is not None else 0)
+            else:
+                vals.append(v)
+        return vals
+
+    def sample_path(self, st, k):
+        # keep the first paths and then every 2^j-th one: deterministic, spread over the exploration
+        if len(self.path_samples) >= self.sample_cap and (k & (k - 1)) != 0:
+            return
+        if any(is_sym(v) for v in st.inputs):
+            m = st.model if st.model is not None else self.check(st)
+            if m is None:
+                return
+        else:
+            m = None
+        vec = self.input_values(st, m)
+        if len(self.path_samples) >= self.sample_cap:
+            self.path_samples[self.sample_cap - 1] = vec
+        else:
+            self.path_samples.append(vec)
+
+    def report_violation(self, st, model, kind, aid, what):
+        n = sum(1 for v in self.violations if v['kind'] == kind and v['id'] == aid)
+        if n >= 3:
+            return
+        self.violations.append({'kind': kind, 'id': aid, 'what': what, 'inputs': self.input_values(st, model),
+                                'notes': list(st.notes)})
 
     # ------------------------------------------------------------------ calls
     def call(self, st, fr, dst, rt, callee, args):
@@ -1008,15 +1207,16 @@ class Engine:
                 fr.locals[dst] = r
             return
         f = mod.get_func(key)
-        self.funcs_seen[f.dem] = self.funcs_seen.get(f.dem, 0) + 1
-        nf = Frame(f, dst)
+        if f.file == 0:
+            self.funcs_seen[f.dem] = self.funcs_seen.get(f.dem, 0) + 1
+        nf = Frame(f, dst, st.sbrk, len(st.sbases))
         if len(args) != len(f.params):
             raise Unsupported('arg count mismatch calling %s' % f.dem)
         for (pt, pn), a in zip(f.params, args):
             nf.locals[pn] = a
         st.frames.append(nf)
-        if len(st.frames) > 400:
-            raise Unsupported('stack overflow')
+        if len(st.frames) > self.limits['max_depth']:
+            raise Inconclusive('call depth limit %d' % self.limits['max_depth'])
 
     def extern(self, st, fr, name, dem, args, rt):
         n = name.lstrip('@')
@@ -1079,20 +1279,22 @@ class Engine:
                     ov = int(full < -(1 << (w - 1)) or full > mask(w - 1))
                 return [r, ov]
             x, y = bvv(a, w), bvv(b, w)
+            rr = bvv(r, w)
+            zero = z3.BitVecVal(0, w)
             if sg == 'u':
                 if op == 'add':
-                    ov = z3.Not(z3.BVAddNoOverflow(x, y, False))
+                    ov = z3.ULT(rr, x)
                 elif op == 'sub':
                     ov = z3.ULT(x, y)
                 else:
-                    ov = z3.Not(z3.BVMulNoOverflow(x, y, False))
+                    ov = z3.Extract(2 * w - 1, w, z3.ZeroExt(w, x) * z3.ZeroExt(w, y)) != z3.BitVecVal(0, w)
             else:
                 if op == 'add':
-                    ov = z3.Not(z3.And(z3.BVAddNoOverflow(x, y, True), z3.BVAddNoUnderflow(x, y)))
+                    ov = z3.Or(z3.And(x >= zero, y >= zero, rr < zero), z3.And(x < zero, y < zero, rr >= zero))
                 elif op == 'sub':
-                    ov = z3.Not(z3.And(z3.BVSubNoOverflow(x, y), z3.BVSubNoUnderflow(x, y, True)))
+                    ov = z3.Or(z3.And(x >= zero, y < zero, rr < zero), z3.And(x < zero, y >= zero, rr >= zero))
                 else:
-                    ov = z3.Not(z3.And(z3.BVMulNoOverflow(x, y, True), z3.BVMulNoUnderflow(x, y)))
+                    ov = z3.SignExt(w, x) * z3.SignExt(w, y) != z3.SignExt(w, rr)
             return [r, ov]
         m = re.match(r'(umin|umax|smin|smax)\.i(\d+)', n)
         if m:
@@ -1115,13 +1317,30 @@ class Engine:
             if sg == 'u' and op == 'sub':
                 return z3.If(z3.ULT(x, y), z3.BitVecVal(0, w), x - y)
             if sg == 'u' and op == 'add':
-                return z3.If(z3.BVAddNoOverflow(x, y, False), x + y, z3.BitVecVal(mask(w), w))
+                return z3.If(z3.ULT(x + y, x), z3.BitVecVal(mask(w), w), x + y)
             raise Unsupported(n)
         m = re.match(r'(ctpop|ctlz|cttz|bswap|bitreverse)\.i(\d+)', n)
         if m:
             op, w = m.group(1), int(m.group(2))
             a = args[0]
             if is_sym(a):
+                if op == 'ctpop':
+                    r = z3.BitVecVal(0, w)
+                    for i in range(w):
+                        r = r + z3.ZeroExt(w - 1, z3.Extract(i, i, a))
+                    return r
+                if op == 'ctlz':
+                    r = z3.BitVecVal(w, w)
+                    for i in range(w):
+                        r = z3.If(z3.Extract(i, i, a) == 1, z3.BitVecVal(w - 1 - i, w), r)
+                    return r
+                if op == 'cttz':
+                    r = z3.BitVecVal(w, w)
+                    for i in reversed(range(w)):
+                        r = z3.If(z3.Extract(i, i, a) == 1, z3.BitVecVal(i, w), r)
+                    return r
+                if op == 'bswap':
+                    return z3.Concat(*[z3.Extract(8 * i + 7, 8 * i, a) for i in range(w // 8)])
                 raise Unsupported('symbolic ' + op)
             if op == 'ctpop':
                 return bin(a).count('1')
@@ -1179,11 +1398,14 @@ class Engine:
     def run_state(self, st, worklist):
         """run until path ends; push forks on worklist"""
         tc = self.tc
+        max_ins = self.limits['max_instr_path']
         while True:
             fr = st.frames[-1]
             ins = fr.func.blocks[fr.block][fr.idx]
             fr.idx += 1
             st.nins += 1
+            if st.nins > max_ins:
+                raise Inconclusive('instruction limit per path')
             op = ins[0]
             L = fr.locals
             if op == 'load':
@@ -1212,8 +1434,7 @@ class Engine:
             elif op == 'alloca':
                 _, dst, t, n, align = ins
                 cnt = self.ev(st, fr, ('i', 64), n)
-                a = self.alloc(st, tc.sizeof(t) * cnt, align, 'stack:' + dst)
-                fr.allocas.append(a)
+                a = self.alloc_stack(st, tc.sizeof(t) * cnt, align, dst)
                 L[dst] = a
             elif op == 'extractvalue':
                 _, dst, t, a, idx = ins
@@ -1270,10 +1491,13 @@ class Engine:
             elif op == 'ret':
                 _, _, t, v = ins
                 rv = self.ev(st, fr, t, v) if v is not None else None
-                for a in fr.allocas:
-                    o = st.mem.get(a)
-                    if o is not None:
-                        del st.mem[a]
+                sb = st.sbases
+                if len(sb) > fr.nsb:
+                    mem = st.mem
+                    for a in sb[fr.nsb:]:
+                        mem.pop(a, None)
+                    del sb[fr.nsb:]
+                st.sbrk = fr.sp
                 st.frames.pop()
                 if not st.frames:
                     return rv
@@ -1417,7 +1641,8 @@ class Engine:
         return agg
 
     # symbolic addresses: enumerate feasible concrete values
-    def addr_values(self, st, addr, limit=64):
+    def addr_values(self, st, addr, limit=None):
+        limit = limit or self.limits['max_addr_values']
         vals = []
         extra = []
         while True:
@@ -1469,67 +1694,117 @@ class Engine:
 
     # ------------------------------------------------------------------ driver
     def explore(self, fname, args=()):
+        """explore every feasible path of harness `fname`; returns a result dict"""
         mod = self.mod
         key = mod.find_func(fname, None)
         if key is None:
             raise KeyError(fname)
         f = mod.get_func(key)
         st = State()
-        fr = Frame(f, None)
+        fr = Frame(f, None, st.sbrk, 0)
         for (pt, pn), a in zip(f.params, args):
             fr.locals[pn] = a
         st.frames.append(fr)
         worklist = [st]
-        results = {'ok': 0, 'panic': 0, 'infeasible': 0, 'assert-fail': 0, 'unsupported': 0}
-        panics = []
-        total_ins = 0
-        while worklist:
-            s = worklist.pop()
-            try:
-                self.run_state(s, worklist)
-                results['ok'] += 1
-            except PathEnd as e:
-                results[e.kind] = results.get(e.kind, 0) + 1
-            except Panic as e:
-                results['panic'] += 1
-                m = s.model or self.check(s)
-                vals = [m.eval(v, model_completion=True).as_long() for v in s.inputs] if m is not None else []
-                panics.append((e.msg, vals))
-            total_ins += s.nins
-            if results['ok'] + results['panic'] > self.max_paths:
-                break
-        return results, panics, total_ins
+        results = {'ok': 0, 'panic': 0, 'expected-panic': 0, 'infeasible': 0, 'assert-fail': 0}
+        lim = self.limits
+        status = 'complete'
+        reason = ''
+        npaths = 0
+        try:
+            while worklist:
+                s = worklist.pop()
+                try:
+                    self.run_state(s, worklist)
+                    if s.expect_panic:
+                        results['ok'] += 1
+                        m = s.model if s.model is not None else self.check(s)
+                        self.report_violation(s, m, 'missing-panic', s.expect_panic,
+                                              'returned normally where a panic is required (id=%d)' % s.expect_panic)
+                    else:
+                        results['ok'] += 1
+                        self.sample_path(s, results['ok'])
+                except PathEnd as e:
+                    results[e.kind] = results.get(e.kind, 0) + 1
+                except Panic as e:
+                    if s.expect_panic:
+                        results['expected-panic'] += 1
+                    else:
+                        results['panic'] += 1
+                        m = s.model if s.model is not None else self.check(s)
+                        self.report_violation(s, m, 'panic', 0, e.msg)
+                self.total_ins += s.nins
+                npaths = results['ok'] + results['panic'] + results['expected-panic'] + results['assert-fail']
+                if npaths > lim['max_paths']:
+                    raise Inconclusive('path limit %d' % lim['max_paths'])
+                if self.total_ins > lim['max_instr_total']:
+                    raise Inconclusive('total instruction limit')
+                if time.time() - self.t_start > lim['timeout_s']:
+                    raise Inconclusive('instance time limit %ds' % lim['timeout_s'])
+        except Inconclusive as e:
+            status, reason = 'inconclusive', str(e)
+        except Unsupported as e:
+            status, reason = 'inconclusive', 'unsupported: ' + str(e)
+        crate_funcs = sorted(self.funcs_seen)
+        return {
+            'status': status, 'reason': reason, 'paths': results, 'npaths': npaths,
+            'instructions': self.total_ins, 'forks': self.stats['forks'], 'queries': self.nqueries,
+            'solver_time': round(self.solver_time, 3), 'stats': dict(self.stats),
+            'violations': self.violations, 'assert_sites': {str(k): v for k, v in self.assert_sites.items()},
+            'covers': {str(k): v for k, v in self.covers.items()}, 'functions': crate_funcs,
+            'wall': round(time.time() - self.t_start, 3), 'pending': len(worklist),
+            'path_samples': self.path_samples,
+        }
 
 
 class SymAddr(Exception):
     pass
 
 
+_MOD = None
+
+
+def load_module(ll_paths):
+    global _MOD
+    _MOD = Module(ll_paths)
+    return _MOD
+
+
+_ENG = None
+
+
+def run_instance(job):
+    """job = dict(harness=, params=, limits=, concrete_inputs=None). Runs in a worker process (module pre-loaded by fork)."""
+    global _ENG
+    if _ENG is None or _ENG.mod is not _MOD:
+        _ENG = Engine(_MOD)
+    eng = _ENG
+    eng.reset(job.get('params', ()), job.get('limits'), job.get('concrete_inputs'))
+    try:
+        res = eng.explore('@' + job['harness'])
+    except Exception as e:  # engine bug: never a pass
+        import traceback
+        res = {'status': 'inconclusive', 'reason': 'engine exception: %r\n%s' % (e, traceback.format_exc()[-1500:]),
+               'paths': {}, 'npaths': 0, 'instructions': 0, 'forks': 0, 'queries': 0, 'solver_time': 0, 'stats': {},
+               'violations': [], 'assert_sites': {}, 'covers': {}, 'functions': [], 'wall': 0, 'pending': 0,
+               'path_samples': []}
+    res['harness'] = job['harness']
+    res['params'] = list(job.get('params', ()))
+    res['label'] = job.get('label', '')
+    return res
+
+
 if __name__ == '__main__':
-    import glob
+    import glob, json
     d = sys.argv[1]
     harness = sys.argv[2]
+    params = [int(x) for x in sys.argv[3].split(',')] if len(sys.argv) > 3 and sys.argv[3] else []
     t0 = time.time()
     paths = sorted(glob.glob(os.path.join(d, '*.ll')))
-    # crate first so that its names win
     paths.sort(key=lambda p: (0 if 'aws_smt_strings' in p else 1, p))
-    mod = Module(paths)
-    print('indexed %d files, %d fn defs in %.1fs' % (len(paths), len(mod.fdefs), time.time() - t0))
-    eng = Engine(mod)
-    eng.max_paths = int(os.environ.get('MAXPATHS', '100000'))
-    t1 = time.time()
-    try:
-        res, panics, nins = eng.explore('@' + harness)
-    except Unsupported as e:
-        print('UNSUPPORTED:', e)
-        raise
-    dt = time.time() - t1
-    print('paths:', res)
-    print('instructions: %d  (%.0f/s)  time %.1fs  queries %d solver %.1fs forks %d' % (nins, nins / max(dt, 1e-9), dt, eng.nqueries, eng.solver_time, eng.stats['forks']))
-    print('functions executed: %d' % len(eng.funcs_seen))
-    qs = sorted(eng.qhist)
-    if qs: print('query time: median %.4f p90 %.4f p99 %.4f max %.4f' % (qs[len(qs)//2], qs[len(qs)*9//10], qs[len(qs)*99//100], qs[-1]))
-    for p in panics[:10]:
-        print('PANIC', p)
-    for v in eng.violations[:10]:
-        print('VIOLATION', v)
+    load_module(paths)
+    print('indexed %d files in %.1fs' % (len(paths), time.time() - t0))
+    res = run_instance({'harness': harness, 'params': params})
+    fn = res.pop('functions')
+    print(json.dumps(res, indent=1, default=str))
+    print('crate functions executed: %d' % len(fn))
